@@ -171,11 +171,15 @@ def restoreMany (cwd : CPath) (overwrite : Bool) : List Entry → Prog Res
     | .error er => pure (.error er)
     | .ok () => restoreMany cwd overwrite es
 
+/-- `RestoreArgParser`: the directory to restore from, `normpath(join(curdir, path))`
+    (`join` supplies the separator only when `curdir` does not end with one, so `/` stays `/`) -/
+def restoreScopeDir (cwdStr path : Bytes) : Bytes := normpath (pjoin cwdStr path)
+
 /-- `RestoreCmd.run` for `RunRestoreArgs`; `reply` = the line read from stdin (none = EOF) -/
 def runRestore (c : ReadCfg) (o : RestoreOpts) (reply : Option Bytes) : Prog CmdResult := do
   let fs ← read
   let cwdStr := toStr c.cwd
-  let dir := normpath (pjoin (cwdStr ++ [slash]) o.path)
+  let dir := restoreScopeDir cwdStr o.path
   let all := restoreEntries fs c o
   let offered := sortEntries o.sort (all.filter fun e => inScope dir e.loc)
   if offered = [] then do
